@@ -3,7 +3,7 @@ C02, group `gpossub`: BRIDGE from the checked-index model of `readGpos1_1` to th
 model of C08 (`SfntV.Otl.Gpos.read11`, Model/OtlGpos.lean): erasing panic sites and costs gives
 that model on the bytes from the subtable position on, for all bytes and all positions.
 -/
-import SfntV.Proofs.TotalGposSub
+import SfntV.Proofs.TotalGposSub51
 import SfntV.Proofs.TotalOtlBridge
 import SfntV.Model.OtlGpos
 
@@ -259,8 +259,8 @@ theorem readSubtable_erase_type1 (b : Bytes) (pos : Nat) :
         have hk : (10 * (1 % 65536) + f) % 65536 = 10 + f := by omega
         rw [hk]
         rw [if_neg (by omega), if_neg (by omega), if_neg (by omega), if_neg (by omega),
-          if_neg (by omega)]
-        have : ([41, 51, 61, 71, 72, 73, 81, 82, 83, 91] : List Nat).contains (10 + f) = false := by
+          if_neg (by omega), if_neg (by omega)]
+        have : ([41, 61, 71, 72, 73, 81, 82, 83, 91] : List Nat).contains (10 + f) = false := by
           have hf9 : f = 0 ∨ f = 3 ∨ f = 4 ∨ f = 5 ∨ f = 6 ∨ f = 7 ∨ f = 8 ∨ f = 9 := by omega
           rcases hf9 with h | h | h | h | h | h | h | h <;> subst h <;> rfl
         rw [this]
